@@ -897,6 +897,7 @@ func oracleC09R(p *Plan, res *Result) (*common.Fail, bool) {
 	}
 	var eps []epoch
 	first := map[int]bool{}
+	firstHex := map[int]string{}
 	queuedAcross := false
 	sendStart := map[int]int64{}
 	for i, e := range evs {
@@ -907,9 +908,15 @@ func oracleC09R(p *Plan, res *Result) (*common.Fail, bool) {
 			sendStart[e.Tag] = e.T
 		case e.K == "out" && e.Svc == "TunnelReq":
 			if first[e.Tag] {
-				continue // retransmission: carries what the first transmission carried (C03)
+				// retransmission: carries what the first transmission carried (C03), also when the connection was
+				// re-established in between
+				if e.Hex != firstHex[e.Tag] {
+					return failTrace(evs, i, "retransmission-differs", "a retransmission of telegram %d differs from its first transmission (the connection was re-established in between):\n first %s\n this  %s", e.Tag, firstHex[e.Tag], e.Hex), false
+				}
+				continue
 			}
 			first[e.Tag] = true
+			firstHex[e.Tag] = e.Hex
 			// the epoch that was certainly in force
 			n, ambiguous := -1, false
 			var nt int64
